@@ -88,17 +88,28 @@ Definition generic_valid (m : mach) (cur to : state) : bool :=
   && nlist_eqb (al_assets (st_alloc cur)) (al_assets (st_alloc to))
   && zlist_eqb (alloc_sum (st_alloc cur)) (alloc_sum (st_alloc to)).
 
-(* payment app: nobody but the actor pays *)
-Fixpoint pay_row (actor : N) (j : N) (from to : list Z) : bool :=
-  match from, to with
-  | f :: from', t :: to' =>
-      (if j =? actor then (t <=? f)%Z else (f <=? t)%Z) && pay_row actor (j + 1) from' to'
-  | _, _ => true
+(* payment app: nobody but the actor pays.  The Go loops run over the OLD state's dimensions and index
+   the new balances with them: a new row that is shorter than the old one is an index-out-of-range
+   panic - unless an earlier comparison already returned an error *)
+Fixpoint pay_row (actor : N) (j : N) (from to : list Z) : out :=
+  match from with
+  | [] => OK
+  | f :: from' =>
+      match to with
+      | [] => PANIC
+      | t :: to' =>
+          if (if j =? actor then (t <=? f)%Z else (f <=? t)%Z) then pay_row actor (j + 1) from' to'
+          else ERR
+      end
   end.
-Fixpoint pay_rows (actor : N) (from to : list (list Z)) : bool :=
-  match from, to with
-  | f :: from', t :: to' => pay_row actor 0 f t && pay_rows actor from' to'
-  | _, _ => true
+Fixpoint pay_rows (actor : N) (from to : list (list Z)) : out :=
+  match from with
+  | [] => OK
+  | f :: from' =>
+      match to with
+      | [] => PANIC
+      | t :: to' => match pay_row actor 0 f t with OK => pay_rows actor from' to' | r => r end
+      end
   end.
 
 Definition app_valid_transition (m : mach) (cur to : state) (actor : N) : out :=
@@ -106,7 +117,7 @@ Definition app_valid_transition (m : mach) (cur to : state) (actor : N) : out :=
   | None => OK
   | Some KPay =>
       if negb (is_nodata (st_data to)) then PANIC
-      else if pay_rows actor (al_bals (st_alloc cur)) (al_bals (st_alloc to)) then OK else ERR
+      else pay_rows actor (al_bals (st_alloc cur)) (al_bals (st_alloc to))
   | Some KMock =>
       match mock_op (st_data cur) with None => ERR | Some o => exec_mock o end
   end.
